@@ -22,7 +22,9 @@ import (
 //     functions (through the call environment c15Env) are resolved, so `n.Lat`, `w.Nodes[u.Index].Lat` and a helper's
 //     `node.Lat` are the same path.
 //   - c15Env: the chain of calls from the API function down to the helper whose body is being read; it maps the
-//     helper's parameters/receiver to the argument expressions of the caller.
+//     helper's parameters/receiver to the argument expressions, each with the environment it is written in.
+//     calleeOf follows a call of a function value (parameter / local) to the method value, function or function
+//     literal bound to it and builds the callee's environment from that value ("inlining with the closure bound").
 //   - c15Loop: a loop over an osm.Updates value (range with value, range with key only, classic index loop).
 //   - walk: explores the CFG from a block, taking each two-way branch according to the three-valued value of its
 //     condition under an oracle for the atoms (relative order of u.Timestamp and t; index in range or not;
@@ -80,6 +82,8 @@ type c15World struct {
 	fns   map[*types.Func]*c15Fn
 	order []*FuncInfo // declaration order (deterministic iteration)
 
+	lits map[*ast.FuncLit]*c15Fn
+
 	filterMemo  map[*types.Func]int // result position of the in-time list (-1: not a filter, -2: in progress)
 	carrierMemo map[*types.Func]int
 }
@@ -99,7 +103,7 @@ type c15Fn struct {
 
 func c15NewWorld(r *core.R) *c15World {
 	pk := r.P.Pkg("")
-	w := &c15World{r: r, pk: pk, decls: map[*types.Func]*FuncInfo{}, fns: map[*types.Func]*c15Fn{},
+	w := &c15World{r: r, pk: pk, decls: map[*types.Func]*FuncInfo{}, fns: map[*types.Func]*c15Fn{}, lits: map[*ast.FuncLit]*c15Fn{},
 		filterMemo: map[*types.Func]int{}, carrierMemo: map[*types.Func]int{}}
 	if pk == nil {
 		return w
@@ -248,9 +252,18 @@ func (f *c15Fn) name() string { return f.fi.Name() }
 // c15Env says in which function an expression is written and how that function was reached.
 type c15Env struct {
 	fn     *c15Fn
-	bind   map[types.Object]ast.Expr // parameter / receiver -> argument expression (written in parent.fn)
-	parent *c15Env
-	call   *ast.CallExpr // the call in parent.fn that leads here
+	bind   map[types.Object]c15Bound // parameter / receiver -> argument expression
+	parent *c15Env                   // the environment of the calling function
+	call   *ast.CallExpr             // the call in parent.fn that leads here
+	lex    *c15Env                   // for a function literal: the environment it was written in (captured variables)
+}
+
+// c15Bound is an argument expression together with the environment it is written in. For a direct call that is
+// the caller; for a call through a function value (`apply(u)` with apply bound to the method value `w.applyUpdate`)
+// the receiver is written where the method value was formed, the arguments where the call is.
+type c15Bound struct {
+	expr ast.Expr
+	env  *c15Env
 }
 
 func (w *c15World) rootEnv(f *c15Fn) *c15Env { return &c15Env{fn: f} }
@@ -270,37 +283,167 @@ func (e *c15Env) depth() int {
 	return n
 }
 
-// childEnv binds the receiver and the parameters of callee to the argument expressions of call.
+// scope returns the environment in which object ob, mentioned in env.fn, has to be interpreted: env itself, or for
+// a variable captured by a function literal the environment the literal was written in.
+func (e *c15Env) scope(ob types.Object) *c15Env {
+	for e.lex != nil && ob != nil && !(e.fn.fi.Decl.Pos() <= ob.Pos() && ob.Pos() < e.fn.fi.Decl.End()) {
+		e = e.lex
+	}
+	return e
+}
+
+// lookup returns the argument bound to parameter ob of env.fn.
+func (e *c15Env) lookup(ob types.Object) (c15Bound, bool) {
+	if e == nil || ob == nil {
+		return c15Bound{}, false
+	}
+	b, ok := e.bind[ob]
+	return b, ok && b.env != nil
+}
+
+// childEnv binds the receiver and the parameters of callee to the argument expressions of a direct call.
 // Parameters that the callee reassigns are not bound.
 func (w *c15World) childEnv(env *c15Env, call *ast.CallExpr, callee *c15Fn) *c15Env {
-	bind := map[types.Object]ast.Expr{}
-	fd := callee.fi.Decl
-	put := func(nm *ast.Ident, arg ast.Expr) {
-		o := w.info.Defs[nm]
-		if o == nil || len(callee.defs[o]) > 0 {
-			return
+	ce := &c15Env{fn: callee, bind: map[types.Object]c15Bound{}, parent: env, call: call}
+	if sel, ok := ast.Unparen(call.Fun).(*ast.SelectorExpr); ok {
+		if s := w.info.Selections[sel]; s != nil && s.Kind() == types.MethodVal {
+			w.bindRecv(ce, c15Bound{expr: sel.X, env: env})
 		}
-		bind[o] = arg
 	}
+	w.bindArgs(ce, env, call)
+	return ce
+}
+
+func (w *c15World) bindRecv(ce *c15Env, recv c15Bound) {
+	fd := ce.fn.fi.Decl
 	if fd.Recv != nil && len(fd.Recv.List) == 1 && len(fd.Recv.List[0].Names) == 1 {
-		if sel, ok := ast.Unparen(call.Fun).(*ast.SelectorExpr); ok {
-			if s := w.info.Selections[sel]; s != nil && s.Kind() == types.MethodVal {
-				put(fd.Recv.List[0].Names[0], sel.X)
-			}
+		if o := w.info.Defs[fd.Recv.List[0].Names[0]]; o != nil && len(ce.fn.defs[o]) == 0 {
+			ce.bind[o] = recv
 		}
 	}
+}
+
+func (w *c15World) bindArgs(ce *c15Env, env *c15Env, call *ast.CallExpr) {
+	callee := ce.fn
 	sig := callee.fi.Obj.Type().(*types.Signature)
 	i := 0
-	for _, fld := range fd.Type.Params.List {
+	for _, fld := range callee.fi.Decl.Type.Params.List {
 		for _, nm := range fld.Names {
 			variadic := sig.Variadic() && i == sig.Params().Len()-1
 			if i < len(call.Args) && !variadic && !call.Ellipsis.IsValid() {
-				put(nm, call.Args[i])
+				if o := w.info.Defs[nm]; o != nil && len(callee.defs[o]) == 0 {
+					ce.bind[o] = c15Bound{expr: call.Args[i], env: env}
+				}
 			}
 			i++
 		}
 	}
-	return &c15Env{fn: callee, bind: bind, parent: env, call: call}
+}
+
+// calleeOf resolves the function of package osm that `call` (written in env.fn) invokes, and the environment of
+// its body: a direct call; or a call through a function value that is a parameter bound at the call site of env.fn
+// or a local with a single definition, when the value is a method value (`w.applyUpdate`), the name of a function,
+// or a function literal. The callee is "inlined" with the value bound: its receiver / captured variables are
+// interpreted where the value was formed, its arguments where the call is.
+func (w *c15World) calleeOf(env *c15Env, call *ast.CallExpr) (*c15Fn, *c15Env) {
+	if f := w.samePkgCallee(call); f != nil {
+		return f, w.childEnv(env, call, f)
+	}
+	if tv, ok := w.info.Types[call.Fun]; ok && tv.IsType() {
+		return nil, nil
+	}
+	if env.depth() > 6 {
+		return nil, nil
+	}
+	fenv, fe := w.resolveFuncValue(env, call.Fun)
+	switch x := fe.(type) {
+	case *ast.SelectorExpr:
+		s := w.info.Selections[x]
+		if s == nil || s.Kind() != types.MethodVal {
+			return nil, nil
+		}
+		fn, _ := s.Obj().(*types.Func)
+		if fn == nil || fn.Pkg() != w.pk.Types {
+			return nil, nil
+		}
+		f := w.fn(fn)
+		if f == nil {
+			return nil, nil
+		}
+		ce := &c15Env{fn: f, bind: map[types.Object]c15Bound{}, parent: env, call: call}
+		w.bindRecv(ce, c15Bound{expr: x.X, env: fenv})
+		w.bindArgs(ce, env, call)
+		return f, ce
+	case *ast.Ident:
+		fn, _ := w.info.Uses[x].(*types.Func)
+		if fn == nil || fn.Pkg() != w.pk.Types {
+			return nil, nil
+		}
+		f := w.fn(fn)
+		if f == nil {
+			return nil, nil
+		}
+		ce := &c15Env{fn: f, bind: map[types.Object]c15Bound{}, parent: env, call: call}
+		w.bindArgs(ce, env, call)
+		return f, ce
+	case *ast.FuncLit:
+		f := w.litFn(x)
+		if f == nil {
+			return nil, nil
+		}
+		ce := &c15Env{fn: f, bind: map[types.Object]c15Bound{}, parent: env, call: call, lex: fenv}
+		w.bindArgs(ce, env, call)
+		return f, ce
+	}
+	return nil, nil
+}
+
+// resolveFuncValue follows a function-typed identifier through parameter bindings and single definitions to the
+// expression that forms the value, with the environment that expression is written in.
+func (w *c15World) resolveFuncValue(env *c15Env, e ast.Expr) (*c15Env, ast.Expr) {
+	for i := 0; i < 10; i++ {
+		e = ast.Unparen(e)
+		id, ok := e.(*ast.Ident)
+		if !ok {
+			break
+		}
+		ob := objOf(w.info, id)
+		if _, isVar := ob.(*types.Var); !isVar {
+			break
+		}
+		env = env.scope(ob)
+		if b, ok := env.lookup(ob); ok {
+			env, e = b.env, b.expr
+			continue
+		}
+		if d := env.fn.singleDef(ob); d != nil {
+			e = d
+			continue
+		}
+		break
+	}
+	return env, e
+}
+
+// litFn returns the analysed form of a function literal (its own CFG; captured variables resolve through c15Env.lex).
+func (w *c15World) litFn(lit *ast.FuncLit) *c15Fn {
+	if f, ok := w.lits[lit]; ok {
+		return f
+	}
+	sig, _ := w.info.TypeOf(lit).(*types.Signature)
+	if sig == nil || lit.Body == nil {
+		w.lits[lit] = nil
+		return nil
+	}
+	decl := &ast.FuncDecl{Name: &ast.Ident{NamePos: lit.Pos(), Name: "func literal"}, Type: lit.Type, Body: lit.Body}
+	obj := types.NewFunc(lit.Pos(), w.pk.Types, "func literal at "+w.r.P.Rel(lit.Pos()), sig)
+	f := &c15Fn{w: w, fi: &FuncInfo{Pkg: w.pk, Decl: decl, Obj: obj}}
+	f.g = newCFG(w.info, lit.Body)
+	f.dom = dominators(f.g)
+	f.par = parentsOf(w.r.P, f.fi)
+	f.computeDefs()
+	w.lits[lit] = f
+	return f
 }
 
 // samePkgCallee returns the analysed callee of a static call into package osm (nil otherwise).
@@ -447,9 +590,10 @@ func (w *c15World) pathOfD(env *c15Env, e ast.Expr, write bool, depth int) *c15P
 			return nil
 		}
 		if env != nil {
-			if b, ok := env.bind[o]; ok && env.parent != nil {
+			env = env.scope(o)
+			if b, ok := env.lookup(o); ok {
 				if !write || c15RefType(v.Type()) {
-					if p := w.pathOfD(env.parent, b, write, depth+1); p != nil {
+					if p := w.pathOfD(b.env, b.expr, write, depth+1); p != nil {
 						return p
 					}
 				}
@@ -925,8 +1069,9 @@ func (o *c15Oracle) errValueOf(env *c15Env, e ast.Expr) int {
 	}
 	if id, ok := e.(*ast.Ident); ok {
 		ob := objOf(w.info, id)
-		if b, bound := env.bind[ob]; bound && env.parent != nil {
-			return o.errValueOf(env.parent, b)
+		env = env.scope(ob)
+		if b, bound := env.lookup(ob); bound {
+			return o.errValueOf(b.env, b.expr)
 		}
 		d := env.fn.singleDef(ob)
 		if d == nil {
@@ -945,7 +1090,7 @@ func (o *c15Oracle) errValueOf(env *c15Env, e ast.Expr) int {
 	if !ok {
 		return 0
 	}
-	f := w.samePkgCallee(call)
+	f, ce := w.calleeOf(env, call)
 	if f == nil || !c15ReturnsError(f) || o.sumDepth >= 3 {
 		return 0
 	}
@@ -954,7 +1099,6 @@ func (o *c15Oracle) errValueOf(env *c15Env, e ast.Expr) int {
 	}
 	o.sumDepth++
 	defer func() { o.sumDepth-- }()
-	ce := w.childEnv(env, call, f)
 	wk := w.walk(f.g.Blocks[0], 0, c15WalkOpt{env: ce, oracle: o})
 	if wk.implicit || len(wk.returns) == 0 {
 		return 0
@@ -1064,8 +1208,9 @@ func (w *c15World) resolveExpr(env *c15Env, e ast.Expr) (*c15Env, ast.Expr) {
 		if ob == nil {
 			break
 		}
-		if b, ok := env.bind[ob]; ok && env.parent != nil {
-			env, e = env.parent, b
+		env = env.scope(ob)
+		if b, ok := env.lookup(ob); ok {
+			env, e = b.env, b.expr
 			continue
 		}
 		if d := env.fn.singleDef(ob); d != nil && w.pureExpr(d, 0) {
@@ -1115,16 +1260,17 @@ func (w *c15World) eval(env *c15Env, e ast.Expr, o *c15Oracle, depth int) c15Tri
 		}
 	case *ast.Ident:
 		ob := objOf(w.info, x)
-		if b, ok := env.bind[ob]; ok && env.parent != nil {
-			return w.eval(env.parent, b, o, depth+1)
+		env = env.scope(ob)
+		if b, ok := env.lookup(ob); ok {
+			return w.eval(b.env, b.expr, o, depth+1)
 		}
 		if d := env.fn.singleDef(ob); d != nil && w.pureExpr(d, 0) {
 			return w.eval(env, d, o, depth+1)
 		}
 	case *ast.CallExpr:
-		if f := w.samePkgCallee(x); f != nil {
+		if f, ce := w.calleeOf(env, x); f != nil {
 			if ret := singleReturnExpr(f.fi); ret != nil {
-				return w.eval(w.childEnv(env, x, f), ret, o, depth+1)
+				return w.eval(ce, ret, o, depth+1)
 			}
 		}
 	}
@@ -1337,12 +1483,12 @@ func (w *c15World) reach(root *c15Fn) []*c15Env {
 			if !ok {
 				return true
 			}
-			f := w.samePkgCallee(call)
+			f, ce := w.calleeOf(env, call)
 			if f == nil || f.fi.Obj.Exported() || seen[f] {
 				return true
 			}
 			seen[f] = true
-			visit(w.childEnv(env, call, f))
+			visit(ce)
 			return true
 		})
 	}
